@@ -3103,6 +3103,9 @@ class Emitter:
         # bind-style joins (join_branches) do not make a function monadic by themselves: the test is made on the
         # body with their markers taken out, then they are spelled `let .. := .. in` (total) or `.. <- .. ;;`
         probe = self.resolve_joins(body, None)
+        if self.v.get("total_joins"):
+            # `| None =>`, `| None, None =>`: an Option that is MATCHED on is no failure (pattern lines stand alone)
+            probe = re.sub(r"(?m)^[ \t]*\|[^\n]*=>[ \t]*$", "", probe)
         total = not force_monadic and ("<-" not in probe and not re.search(r"(?<![A-Za-z0-9_])None(?![A-Za-z0-9_])", self._strip_ret(probe)))
         body = self.resolve_joins(body, total)
         if total:
